@@ -8,7 +8,10 @@ package main
 import (
 	"fmt"
 	"go/ast"
+	"go/constant"
 	"go/token"
+	"go/types"
+	"math/big"
 	"strings"
 
 	"golang.org/x/tools/go/ssa"
@@ -112,9 +115,107 @@ func runDRules(w *World, r *Run, which ...string) {
 				}
 			}
 			note(id, what, ok, detail)
+		case "D3":
+			what := "x/mod tlog.Tile.Path: for hash tiles the reference implementation's own path is tile/<H>/<L>/[x<NNN>/]*<NNN>[.p/<W>] with k digit groups exactly for pathBase^(k-1) <= N < pathBase^k and the suffix exactly when W != 1<<H — the layout C18.a/c compare the client's URLs with"
+			ok, detail := d3TilePath(w)
+			note(id, what, ok, detail)
 		}
 	}
 	r.extra["d_rules"] = res
 }
 
 func res0(e Event) *Term { return res(e, 0) }
+
+
+// d3TilePath runs the path engine on the source of tlog.Tile.Path and parses what it returns with the same
+// template parser and the same conditions the C18 rules apply to the client: the layout the rules call "the
+// reference" is thereby the one the dependency's source has, not a transcription of it.
+func d3TilePath(w *World) (bool, string) {
+	tl := w.pkg("golang.org/x/mod/sumdb/tlog")
+	if tl == nil {
+		return false, "package not loaded"
+	}
+	ref, _ := tl.Types.Scope().Lookup("pathBase").(*types.Const)
+	fn := depFn(w, "(golang.org/x/mod/sumdb/tlog.Tile).Path")
+	if ref == nil || fn == nil {
+		return false, "pathBase or Tile.Path not found"
+	}
+	baseI, _ := constant.Int64Val(ref.Val())
+	base := big.NewInt(baseI)
+	e := &Engine{prog: w.prog, fset: w.fset, modPrefix: "golang.org/x/mod/sumdb/tlog", maxDepth: 1, loopBound: 2, maxPaths: 20000, funcByName: w.funcs, opaque: map[string]bool{}, hof: map[string]int{}}
+	sums := e.Explore(fn)
+	t := mk("param", fn.Params[0].Name(), 0, fn.Params[0].Type()) // the receiver
+	fld := func(f string) *Term { return mk("field", f, 0, nil, t) }
+	one := mk("const", "1", 0, types.Typ[types.Int])
+	cT := func(x *big.Int) *Term { return mk("const", x.String(), 0, types.Typ[types.Int]) }
+	maxGroups, n := 0, 0
+	type parsed struct {
+		s *Summary
+		u tileURL
+	}
+	var ps []parsed
+	for i := range sums {
+		s := &sums[i]
+		if s.Panic || len(s.Rets) != 1 {
+			continue
+		}
+		if s.Trunc != "" {
+			// the path cut by the unrolling bound: its digit-group chain is incomplete
+			continue
+		}
+		pieceCtx = s
+		pcs := mergeLits(strPieces(s.Rets[0]))
+		// data tiles (L == -1) are addressed as tile/<H>/data/…: not requested by the hash reader, not covered
+		if strings.Contains(piecesString(pcs), "data") {
+			continue
+		}
+		u, ok := parseTileURL(pcs, base)
+		if !ok {
+			return false, "Tile.Path returns " + piecesString(pcs) + ", which " + u.why
+		}
+		if u.groups > maxGroups {
+			maxGroups = u.groups
+		}
+		ps = append(ps, parsed{s, u})
+	}
+	for _, p := range ps {
+		u, s := p.u, p.s
+		n++
+		if u.height != fld("H") || u.level != fld("L") || u.off != normInt(fld("N")) {
+			return false, fmt.Sprintf("coordinates are (%s, %s, %s), not (t.H, t.L, t.N)", short(u.height.String()), short(u.level.String()), short(u.off.String()))
+		}
+		facts := normFactsInt(s.Facts, nil, nil)
+		lo := new(big.Int).Exp(base, big.NewInt(int64(u.groups-1)), nil)
+		hi := new(big.Int).Mul(lo, base)
+		if u.groups > 1 && !implies(facts, "<", u.off, cT(lo), false) {
+			return false, fmt.Sprintf("%d digit groups on a path that does not imply N >= %s", u.groups, lo)
+		}
+		if u.groups < maxGroups && !implies(facts, "<", u.off, cT(hi), true) {
+			return false, fmt.Sprintf("%d digit group(s) on a path that does not imply N < %s", u.groups, hi)
+		}
+		// suffix exactly when W != 1<<H
+		full := mk("binop", "<<", 0, nil, one, mk("conv", "uint", 0, nil, fld("H")))
+		_ = full
+		hasNe, hasEq := false, false
+		for _, f := range s.Facts {
+			if f.T.Kind == "binop" && (f.T.Name == "!=" || f.T.Name == "==") && mentions(f.T, fld("W")) && mentions(f.T, fld("H")) && strings.Contains(f.T.String(), "<<") {
+				ne := (f.T.Name == "!=") == f.Pos
+				if ne {
+					hasNe = true
+				} else {
+					hasEq = true
+				}
+			}
+		}
+		if u.width == nil && !hasEq {
+			return false, "a path without the .p/ suffix does not imply W == 1<<H"
+		}
+		if u.width != nil && (!hasNe || u.width != fld("W")) {
+			return false, "a path with the .p/ suffix does not imply W != 1<<H or does not carry t.W"
+		}
+	}
+	if n < 4 || maxGroups < 2 {
+		return false, fmt.Sprintf("vacuity floor: %d parsed paths, %d digit groups at most", n, maxGroups)
+	}
+	return true, fmt.Sprintf("%d paths of Tile.Path parsed with the C18 template parser (pathBase %d, up to %d digit groups checked), all conform", n, baseI, maxGroups)
+}
